@@ -26,6 +26,13 @@ pub uninterp spec fn fl_mul(a: real, b: real) -> real;
 pub uninterp spec fn fl_div(a: real, b: real) -> real;
 pub uninterp spec fn fl_neg(a: real) -> real;
 
+// IEEE-754 addition and multiplication are commutative (bit for bit, NaN payloads aside)
+#[verifier::external_body]
+pub broadcast proof fn ax_fl_add_comm(a: real, b: real) ensures #[trigger] fl_add(a, b) == fl_add(b, a) {}
+#[verifier::external_body]
+pub broadcast proof fn ax_fl_mul_comm(a: real, b: real) ensures #[trigger] fl_mul(a, b) == fl_mul(b, a) {}
+pub broadcast group A_comm { ax_fl_add_comm, ax_fl_mul_comm }
+
 // A-exact: machine arithmetic treated as mathematical
 #[verifier::external_body]
 pub broadcast proof fn ax_exact_add(a: real, b: real) ensures #[trigger] fl_add(a, b) == a + b {}
